@@ -1,4 +1,209 @@
-/-! Assign: executable models (no Mathlib imports). -/
+/-!
+Assign: mirror of `solvor/hungarian.py` (`solve_hungarian`) over `Rat`, and the verified
+checker `chkAssignment` (spec side).  No Mathlib imports.
+
+The Python lists `row_potential`, `col_potential`, `col_match`, `augment_path`, `min_slack`,
+`used` (all of length `n + 1`, 1-indexed, slot 0 = the virtual column holding the row being
+inserted) are modelled as functions `Nat → _` with point updates `upd`; `float("inf")` is
+`none : Option Rat`.  Iteration order, strict comparisons (`<`), first-minimum tie-breaking,
+the sequential `row_potential[col_match[j]] += delta` loop, the padding with zeros and the
+`max_val - c` transformation are those of the code.  Loops carry fuel (`n + 1`); running out of
+fuel or meeting `delta = inf` (where the Python loop would not terminate) sets `stuck`.
+-/
 namespace Solvor.Assign
+
+abbrev Mat := List (List Rat)
+
+def cell (m : Mat) (i j : Nat) : Rat := (m.getD i []).getD j 0
+def nRows (m : Mat) : Nat := m.length
+def nCols (m : Mat) : Nat := (m.headD []).length
+
+def upd {α : Type} (f : Nat → α) (i : Nat) (x : α) : Nat → α := fun k => if k = i then x else f k
+
+/-- `max(cost_matrix[i][j] for i in range(n_rows) for j in range(n_cols))` -/
+def maxVal (m : Mat) : Rat :=
+  match (List.range (nRows m)).flatMap fun i => (List.range (nCols m)).map fun j => cell m i j with
+  | [] => 0
+  | x :: xs => xs.foldl (fun a b => if a < b then b else a) x
+
+/-- The square the algorithm works on (0-indexed): real cells hold `c` (minimize) or
+`mx - c` (maximize), padding cells hold 0. -/
+def padded (m : Mat) (minimize : Bool) (mx : Rat) (i j : Nat) : Rat :=
+  if i < nRows m ∧ j < nCols m then (if minimize then cell m i j else mx - cell m i j) else 0
+
+/-! ### the inner `for j in range(1, n + 1)` scan -/
+
+structure Scan where
+  minv : Nat → Option Rat
+  way : Nat → Nat
+  delta : Option Rat
+  next : Nat
+
+/-- `x < y` where `none` is `+inf` -/
+def ltInf (x : Rat) : Option Rat → Bool
+  | none => true
+  | some y => decide (x < y)
+
+/-- `A` is the 1-indexed padded matrix (`A i j = matrix[i-1][j-1]`). -/
+def scanStep (A : Nat → Nat → Rat) (u v : Nat → Rat) (used : Nat → Bool) (i0 j0 : Nat)
+    (s : Scan) (j : Nat) : Scan :=
+  if used j then s else
+    let cur := A i0 j - u i0 - v j
+    let s1 : Scan :=
+      if ltInf cur (s.minv j) then { s with minv := upd s.minv j (some cur), way := upd s.way j j0 } else s
+    match s1.minv j with
+    | some mj => if ltInf mj s1.delta then { s1 with delta := some mj, next := j } else s1
+    | none => s1
+
+def scan (A : Nat → Nat → Rat) (n : Nat) (u v : Nat → Rat) (used : Nat → Bool) (i0 j0 : Nat)
+    (minv : Nat → Option Rat) (way : Nat → Nat) : Scan :=
+  (List.range' 1 n).foldl (scanStep A u v used i0 j0) ⟨minv, way, none, 0⟩
+
+/-- `for j in range(n + 1): if used[j]: row_potential[col_match[j]] += delta` (sequential) -/
+def bumpU (n : Nat) (used : Nat → Bool) (p : Nat → Nat) (d : Rat) (u : Nat → Rat) : Nat → Rat :=
+  (List.range (n + 1)).foldl (fun u j => if used j then upd u (p j) (u (p j) + d) else u) u
+
+/-! ### the `while col_match[current_col] != 0` loop -/
+
+structure Loop where
+  u : Nat → Rat
+  v : Nat → Rat
+  way : Nat → Nat
+  minv : Nat → Option Rat
+  used : Nat → Bool
+  j0 : Nat
+  iters : Nat
+  stuck : Bool
+
+def search (A : Nat → Nat → Rat) (n : Nat) (p : Nat → Nat) : Nat → Loop → Loop
+  | 0, s => if p s.j0 = 0 then s else { s with stuck := true }
+  | fuel + 1, s =>
+    if p s.j0 = 0 then s else
+      let used := upd s.used s.j0 true
+      let sc := scan A n s.u s.v used (p s.j0) s.j0 s.minv s.way
+      match sc.delta with
+      | none => { s with stuck := true }
+      | some d =>
+        search A n p fuel
+          { u := bumpU n used p d s.u
+            v := fun j => if used j then s.v j - d else s.v j
+            way := sc.way
+            minv := fun j => if used j then sc.minv j else (sc.minv j).map (· - d)
+            used := used
+            j0 := sc.next
+            iters := s.iters + 1
+            stuck := s.stuck }
+
+/-- `while current_col != 0: prev = augment_path[current_col]; col_match[current_col] = col_match[prev]; …` -/
+def augment (way : Nat → Nat) : Nat → (Nat → Nat) → Nat → (Nat → Nat)
+  | 0, p, _ => p
+  | fuel + 1, p, j0 => if j0 = 0 then p else augment way fuel (upd p j0 (p (way j0))) (way j0)
+
+/-- does the augmenting walk reach column 0 within the fuel? -/
+def augmentEnds (way : Nat → Nat) : Nat → Nat → Bool
+  | 0, j0 => j0 == 0
+  | fuel + 1, j0 => if j0 = 0 then true else augmentEnds way fuel (way j0)
+
+structure St where
+  u : Nat → Rat
+  v : Nat → Rat
+  p : Nat → Nat
+  way : Nat → Nat
+  iters : Nat
+  stuck : Bool
+
+/-- one pass of `for i in range(1, n + 1)` -/
+def rowStep (A : Nat → Nat → Rat) (n : Nat) (st : St) (i : Nat) : St :=
+  let p := upd st.p 0 i
+  let l := search A n p (n + 1)
+    { u := st.u, v := st.v, way := st.way, minv := fun _ => none, used := fun _ => false,
+      j0 := 0, iters := st.iters, stuck := false }
+  { u := l.u, v := l.v, p := augment l.way (n + 1) p l.j0, way := l.way, iters := l.iters,
+    stuck := st.stuck || l.stuck || !augmentEnds l.way (n + 1) l.j0 }
+
+def initSt : St := ⟨fun _ => 0, fun _ => 0, fun _ => 0, fun _ => 0, 0, false⟩
+
+def runRows (A : Nat → Nat → Rat) (n : Nat) : St := (List.range' 1 n).foldl (rowStep A n) initSt
+
+/-- `assignment = [-1] * n_rows; for j in 1..n: if col_match[j] != 0 and col_match[j] <= n_rows and j <= n_cols: …` -/
+def extract (r k n : Nat) (p : Nat → Nat) : List Int :=
+  (List.range' 1 n).foldl
+    (fun asg j => if p j ≠ 0 ∧ p j ≤ r ∧ j ≤ k then asg.set (p j - 1) ((j : Int) - 1) else asg)
+    (List.replicate r (-1))
+
+/-- `total_cost` loop of the code (with its `assignment[i] < n_cols` guard) -/
+def totalCost (m : Mat) (asg : List Int) : Rat :=
+  ((List.range (nRows m)).map fun i =>
+    let a := asg.getD i (-1)
+    if a ≠ -1 ∧ a < (nCols m : Int) then cell m i a.toNat else 0).sum
+
+structure Out where
+  asg : List Int
+  obj : Rat
+  iters : Nat
+  evals : Nat
+  u : List Rat     -- potentials of the padded problem, 0-indexed, length n
+  v : List Rat
+  stuck : Bool
+
+def hungarian (m : Mat) (minimize : Bool) : Out :=
+  if nRows m = 0 ∨ nCols m = 0 then ⟨[], 0, 0, 0, [], [], false⟩ else
+  let r := nRows m
+  let k := nCols m
+  let n := max r k
+  let mx := maxVal m
+  let A : Nat → Nat → Rat := fun i j => padded m minimize mx (i - 1) (j - 1)
+  let st := runRows A n
+  let asg := extract r k n st.p
+  { asg := asg, obj := totalCost m asg, iters := st.iters, evals := n * n,
+    u := (List.range n).map fun i => st.u (i + 1),
+    v := (List.range n).map fun j => st.v (j + 1),
+    stuck := st.stuck }
+
+/-! ### Spec side: valid assignments, objective, verified checker -/
+
+/-- `assignment` is a matching of size `min r k`: one entry per row, each `-1` or a column
+index, no column used twice, exactly `min r k` rows assigned. -/
+structure ValidAsg (r k : Nat) (asg : List Int) : Prop where
+  len : asg.length = r
+  rng : ∀ i, i < r → asg.getD i (-1) = -1 ∨ (0 ≤ asg.getD i (-1) ∧ asg.getD i (-1) < (k : Int))
+  inj : ∀ i, i < r → ∀ j, j < r → asg.getD i (-1) ≠ -1 → asg.getD i (-1) = asg.getD j (-1) → i = j
+  card : ((List.range r).filter fun i => asg.getD i (-1) != -1).length = min r k
+
+def validAsgB (r k : Nat) (asg : List Int) : Bool :=
+  asg.length == r &&
+  ((List.range r).all fun i => asg.getD i (-1) == -1 || (decide (0 ≤ asg.getD i (-1)) && decide (asg.getD i (-1) < (k : Int)))) &&
+  ((List.range r).all fun i => (List.range r).all fun j =>
+    asg.getD i (-1) == -1 || asg.getD i (-1) != asg.getD j (-1) || i == j) &&
+  ((List.range r).filter fun i => asg.getD i (-1) != -1).length == min r k
+
+/-- sum of the chosen cost entries -/
+def objOf (m : Mat) (asg : List Int) : Rat :=
+  ((List.range (nRows m)).map fun i =>
+    if asg.getD i (-1) = -1 then 0 else cell m i (asg.getD i (-1)).toNat).sum
+
+/-- sum of the chosen entries of the padded / transformed matrix -/
+def tObjOf (m : Mat) (minimize : Bool) (mx : Rat) (asg : List Int) : Rat :=
+  ((List.range (nRows m)).map fun i =>
+    if asg.getD i (-1) = -1 then 0 else padded m minimize mx i (asg.getD i (-1)).toNat).sum
+
+/-- `u_i + v_j ≤ a_ij` on the whole padded square -/
+def dualFeasB (m : Mat) (minimize : Bool) (mx : Rat) (n : Nat) (u v : List Rat) : Bool :=
+  (List.range n).all fun i => (List.range n).all fun j =>
+    decide (u.getD i 0 + v.getD j 0 ≤ padded m minimize mx i j)
+
+/-- The certificate checker: `asg` is a matching of size `min r k`, `(u, v)` are feasible
+potentials of the padded (transformed) square, and the transformed cost of `asg` equals
+`Σ u + Σ v`.  `chkAssignment_sound` (Theorems.lean): then `asg` is optimal. -/
+def chkAssignment (m : Mat) (minimize : Bool) (mx : Rat) (asg : List Int) (u v : List Rat) : Bool :=
+  let r := nRows m
+  let k := nCols m
+  let n := max r k
+  validAsgB r k asg && u.length == n && v.length == n &&
+  dualFeasB m minimize mx n u v &&
+  tObjOf m minimize mx asg == u.sum + v.sum
+
+/-- all rows have the length of the first (the harness only sends such matrices) -/
+def rectB (m : Mat) : Bool := m.all fun row => row.length == nCols m
 
 end Solvor.Assign
